@@ -1024,6 +1024,10 @@ class BlockwiseRequest(BaseUnicastRequest, interfaces.Request):
             else:
                 block_cursor += 1
 
+            if size_exp == 7 and block1.size_exponent < 7:
+                # BERT blocks are counted in the same 1024 byte units as
+                # blocks of size exponent 6: this step down is no halving.
+                size_exp = 6
             while block1.size_exponent < size_exp:
                 block_cursor *= 2
                 size_exp -= 1
